@@ -47,7 +47,16 @@ class _Budget:
 
 def _gen_q(rng, field, opts, counter):
     kind = rng.wpick(opts["qkinds"])
+    if field == "xy" and kind in ("str", "selfc"):
+        kind = "lambda"
     q = {"f": field, "kind": kind}
+    if kind == "str":
+        if field in ("x", "y"):
+            q["expr"] = rng.pick([field, field, "%s + 1" % field, "2 * %s" % field, "%s - 0.5" % field])
+        elif field == "c":
+            q["expr"] = rng.pick(["c", "c * 1"])
+        else:
+            q["expr"] = field
     if kind in ("named", "cached_named"):
         counter[0] += 1
         q["name"] = "q%d_%s" % (counter[0], field)
@@ -184,7 +193,7 @@ def gen_spec(rng, opts=None, depth=None, budget=None, counter=None, force=None):
             if first["p"] == "Bag":
                 # same range, and therefore a field of the same kind
                 k["range"] = first["range"]
-                k["q"]["f"] = first["q"]["f"] if first["range"] != "N" else rng.pick(["x", "y"])
+                k["q"] = _gen_q(rng, first["q"]["f"] if first["range"] != "N" else rng.pick(["x", "y"]), opts, counter)
             kids.append(k)
         if p == "Label":
             s["pairs"] = {"k%d" % i: k for i, k in enumerate(kids)}
@@ -282,6 +291,9 @@ def _mk_q(q, node):
         return named(q["name"], cached(gate.make_lambda(node, f)))
     if kind == "str":
         return q.get("expr", f)
+    if kind == "selfc":
+        # self-contained lambda with a default argument and no globals at all
+        return eval('lambda d, k=1: getattr(d["%s"], "values", d["%s"])' % (f, f), {})
     if kind == "column":
         from .scenarios.sparkfake import Column
 
